@@ -9,7 +9,8 @@ from ..common import import_darr, outcome_of, exc_class, rmtree
 from ..engines.enum import product, run_enum, replay_case
 from ..sys_array import viol
 
-SHAPES = [(0,), (1,), (3,), (5,), (0, 2), (1, 1), (2, 3), (3, 1), (5, 2), (0, 2, 3), (2, 1, 3), (3, 2, 2), (2, 2, 1, 2)]
+SHAPES = [(0,), (1,), (3,), (5,), (0, 2), (1, 1), (2, 3), (3, 1), (5, 2), (0, 2, 3), (2, 1, 3), (3, 2, 2), (2, 2, 1, 2),
+          (2, 0), (3, 0, 2)]
 LAYOUTS = ['C', 'F', 'strided', 'negstride', 'transposed', 'broadcast']
 CHUNKLENS = [None, 1, 2, 'len-1', 'len', 'len+1']
 DTYPE_ARGS = [None] + payload.NUMTYPES
@@ -120,7 +121,10 @@ def eval_asarray(case):
         x = tup(base.tolist())
         ref = np.asarray(x)
     elif form == 'darr':
-        x = darr.asarray('src.darr', base)
+        ws, x = outcome_of(lambda: darr.asarray('src.darr', base))
+        if ws == 'raises':      # creating the Darr source is itself an asarray(ndarray) call
+            return [viol('create', 'asarray/ndarray', 'call', f'raises {exc_class(x)}',
+                         f'asarray(ndarray {src}{shape}) raises {x!r}', empty=(shape[0] == 0), has_dtype=False)], None, 1
         ref = base
     if dtarg is not None:
         ref = ref.astype(dtarg)
